@@ -503,6 +503,18 @@ def run_kernel_short(case):
         if res[0] in ('signal', 'timeout'):
             viol.append({'key': 'C19:misc_solvers.%s:too-short-vector-accepted' % k, 'msg': 'misc_solvers.%s with a too short vector killed the interpreter' % k})
             break
+    if k == 'max_step':
+        # the optional argument given explicitly with its documented default (the Python fallback declares sigma=None)
+        d = {'l': 1, 'q': [2], 's': [2]}
+        full = matrix([1.0, 2.0, 0.5, 3.0, 1.0, 1.0, 4.0])
+        for nm, fn in (('positional', lambda: ms.max_step(+full, d, 0, None)), ('keyword', lambda: ms.max_step(+full, d, sigma=None))):
+            res = _forked(fn)
+            n += 1
+            outcomes['sigma=None:' + res[0]] = outcomes.get('sigma=None:' + res[0], 0) + 1
+            if res[0] in ('signal', 'timeout'):
+                viol.append({'key': 'C19:misc_solvers.max_step:sigma=None:interpreter-killed',
+                             'msg': 'misc_solvers.max_step(x, dims, 0, None) (%s None) killed the interpreter (%s %r)' % (nm, res[0], res[1])})
+                break
     return {'n': n, 'nontrivial': n, 'viol': viol, 'outcomes': outcomes}
 
 
